@@ -7,8 +7,10 @@ package c05
 import (
 	"bytes"
 	"fmt"
+	"os"
 	"sort"
 	"strings"
+	"sync"
 	"time"
 
 	"github.com/flosch/pongo2/v6"
@@ -152,7 +154,61 @@ func (w *world) op(name string) func() any {
 	panic("unknown op " + name)
 }
 
+// racePass: the bodies of the scenario on real goroutines, free-running, in a binary built with the Go race
+// detector and WITHOUT the controlled scheduler (whose hand-offs would order everything): a report of the detector
+// ends the process (GORACE halt_on_error), which the engine records as the death of this case.
+func (c *Case) racePass(t *eng.T) {
+	if c.FirstUse {
+		t.Skip()
+		return
+	}
+	if w, _ := c.newWorld(); w == nil {
+		t.Skip()
+		return
+	}
+	t.Nontrivial()
+	solo := make([]string, len(c.Ops))
+	for i, o := range c.Ops {
+		w, _ := c.newWorld()
+		solo[i] = fmt.Sprint(w.op(o)())
+	}
+	reps := 150
+	for rep := 0; rep < reps; rep++ {
+		w, _ := c.newWorld()
+		res := make([]string, len(c.Ops))
+		var wg sync.WaitGroup
+		start := make(chan struct{})
+		for i, o := range c.Ops {
+			body := w.op(o)
+			wg.Add(1)
+			go func(i int) {
+				defer wg.Done()
+				<-start
+				res[i] = fmt.Sprint(body())
+			}(i)
+		}
+		close(start)
+		wg.Wait()
+		t.AddStates(1)
+		if rep%32 == 0 {
+			t.Heartbeat()
+		}
+		for i := range res {
+			cacheOp := strings.HasPrefix(c.Ops[i], "cleancache") || strings.HasPrefix(c.Ops[i], "fromcache") || strings.HasPrefix(c.Ops[i], "compile")
+			if res[i] != solo[i] && !cacheOp {
+				t.Fail("racepass-diverges:"+c.Label, "free-running repetition %d: thread %d (%s) returned %s; alone it returns %s [%s]", rep, i, c.Ops[i], res[i], solo[i], c.ID())
+				return
+			}
+		}
+	}
+	t.Outcome("race-pass")
+}
+
 func (c *Case) Exec(t *eng.T) {
+	if os.Getenv("VERIF_RACEPASS") != "" {
+		c.racePass(t)
+		return
+	}
 	w0, why := c.newWorld()
 	if w0 == nil {
 		t.Skip()
